@@ -58,6 +58,10 @@ const F_L: FileId = FileId(4);
 const F_LIB_TOML: FileId = FileId(5);
 /// a module of `lib` with the same name as app's `b` (the importing package's own module must win, always)
 const F_LB: FileId = FileId(6);
+/// a second file of app with the module name `b` (test/b.gleam next to src/b.gleam): which one an
+/// import means must at least not change from run to run
+const F_DUP: FileId = FileId(7);
+const DUP: &str = "pub fn inc(n: Int) -> Float { 1.0 }\npub fn only_test() { 2 }\npub type T { T(v: Int) }\n";
 const LB: &str = "pub fn inc(n: Int) -> String { \"lib\" }\npub fn only_lib() { 1 }\n";
 
 #[derive(Clone, Debug, PartialEq, Eq)]
@@ -69,11 +73,13 @@ pub struct WState {
     swapped: bool,
     /// the package graph lists the packages in the other order (same packages, same edges)
     gswapped: bool,
+    /// app also has test/b.gleam
+    dup: bool,
 }
 
 impl WState {
     fn init() -> Self {
-        WState { a: 0, b: 0, c: None, dep: false, swapped: false, gswapped: false }
+        WState { a: 0, b: 0, c: None, dep: false, swapped: false, gswapped: false, dup: false }
     }
 
     fn roots(&self) -> Vec<SourceRoot> {
@@ -82,6 +88,9 @@ impl WState {
         app.insert(F_B, VfsPath::new("/ws/app/src/b.gleam"));
         if self.c.is_some() {
             app.insert(F_C, VfsPath::new("/ws/app/src/c.gleam"));
+        }
+        if self.dup {
+            app.insert(F_DUP, VfsPath::new("/ws/app/test/b.gleam"));
         }
         app.insert(F_APP_TOML, VfsPath::new("/ws/app/gleam.toml"));
         let mut lib = FileSet::default();
@@ -117,6 +126,9 @@ impl WState {
         if let Some(c) = self.c {
             ch.change_file(F_C, Arc::from(C[c]));
         }
+        if self.dup {
+            ch.change_file(F_DUP, Arc::from(DUP));
+        }
         ch.change_file(F_APP_TOML, Arc::from("name = \"app\"\n"));
         ch.change_file(F_L, Arc::from(L));
         ch.change_file(F_LB, Arc::from(LB));
@@ -130,6 +142,9 @@ impl WState {
         let mut v = vec![(F_A, "a", A[self.a].to_string()), (F_B, "b", B[self.b].to_string())];
         if let Some(c) = self.c {
             v.push((F_C, "c", C[c].to_string()));
+        }
+        if self.dup {
+            v.push((F_DUP, "test:b", DUP.to_string()));
         }
         v.push((F_L, "l", L.to_string()));
         v.push((F_LB, "lib:b", LB.to_string()));
@@ -149,6 +164,8 @@ pub enum Chg {
     /// the package graph is sent again with its packages in the other order; the roots are not
     SwapGraph,
     SameAgain,
+    /// test/b.gleam appears next to src/b.gleam / disappears again
+    ToggleDup,
 }
 
 #[derive(Clone, Copy, Debug, PartialEq, Eq)]
@@ -169,7 +186,7 @@ fn changes() -> Vec<Chg> {
     for i in 0..B.len() {
         v.push(Chg::SetB(i));
     }
-    v.extend([Chg::AddC(0), Chg::AddC(1), Chg::RemoveC, Chg::AddDep, Chg::RemoveDep, Chg::SwapRoots, Chg::SwapGraph, Chg::SameAgain]);
+    v.extend([Chg::AddC(0), Chg::AddC(1), Chg::RemoveC, Chg::AddDep, Chg::RemoveDep, Chg::SwapRoots, Chg::SwapGraph, Chg::SameAgain, Chg::ToggleDup]);
     v
 }
 
@@ -226,6 +243,11 @@ fn step_into(st: &mut WState, c: Chg, ch: &mut Change) {
         }
         Chg::SameAgain => {
             ch.change_file(F_A, Arc::from(A[st.a]));
+        }
+        Chg::ToggleDup => {
+            st.dup = !st.dup;
+            ch.change_file(F_DUP, Arc::from(if st.dup { DUP } else { "" }));
+            ch.set_roots(st.roots());
         }
     }
 }
